@@ -56,7 +56,7 @@ const keyLeave = "C09/leave-confver-uses-peerid-as-storeid"
 func leaveKnown() bool { return vkit.Known(keyLeave) && os.Getenv("VERIF_C09_STRICT") == "" }
 
 func init() {
-	vkit.Register("lifecycle", vkit.N{Quick: 6000, Thorough: 200000}, genCase, runCase)
+	vkit.Register("lifecycle", vkit.N{Quick: 40000, Thorough: 1000000}, genCase, runCase)
 }
 
 // ---------------------------------------------------------------- case data
